@@ -419,7 +419,9 @@ func finishCheck(eng *Engine, prop, tier, repo, verif string, seed int, t0 time.
 	ev.Assumptions = append(ev.Assumptions, extraAssume...)
 	sort.Strings(ev.Assumptions)
 	b, _ := json.MarshalIndent(ev, "", " ")
-	os.WriteFile(evPath, b, 0o644)
+	if os.Getenv("VERIF_FINGERPRINT") == "" {
+		os.WriteFile(evPath, b, 0o644)
+	}
 	fmt.Printf("%s: %d obligations, %d discharged, %d violations, %d known findings, %.1fs\n", prop, nObl, nOK, violations, len(knownHit), time.Since(t0).Seconds())
 	if violations > 0 {
 		return 1
@@ -635,7 +637,9 @@ func checkC05(eng *Engine, prop, tier string, seed int, t0 time.Time, evPath str
 		"known_findings_hit": knownHit, "samples": samples, "undecided": undecided, "slice_fallbacks": sliceFallbacks,
 		"bounded_corpus": map[string]any{"label": "bounded (not counted as proved)", "test": "replay/spine/zz_replay_c05_test.go", "panic_sites": len(sites), "summary": firstLineWith(corpusOut, "delivered")}}
 	b, _ := json.MarshalIndent(ev, "", " ")
-	os.WriteFile(evPath, b, 0o644)
+	if os.Getenv("VERIF_FINGERPRINT") == "" {
+		os.WriteFile(evPath, b, 0o644)
+	}
 	fmt.Printf("%s: %d obligations, %d discharged, %d violations, %d known findings, %.1fs\n", prop, nObl, nOK, violations, len(knownHit), time.Since(t0).Seconds())
 	if violations > 0 {
 		return 1
